@@ -15,6 +15,8 @@ cp "$src/demo.rs" "$wt/sylvia/tests/$demo.rs"
 if ls "$src"/overlap.* >/dev/null 2>&1; then n=$(grep -o 'seed_demo_[0-9]*' "$src/demo.rs" | head -1); mkdir -p "$wt/sylvia/tests/$n"; cp "$src"/overlap.* "$wt/sylvia/tests/$n/"; fi
 log=/verif/.build/seedlogs/validate_$name.log
 : > $log
+# auxiliary case directories (trybuild), copied under their own name; the demo refers to them by that name
+for d in "$src"/seed_demo_*_cases; do [ -d "$d" ] && cp -r "$d" "$wt/sylvia/tests/" && dn=$(basename "$d") && sed -i "s#seed_demo_[0-9]*_cases#$dn#g" "$wt/sylvia/tests/$demo.rs"; done
 (cd $wt && cargo test $flags --offline --test $demo >> $log 2>&1); pristine=$?
 if ! git -C "$wt" apply --3way "$src/patch.diff" >> $log 2>&1; then echo "$name: PATCH-DOES-NOT-APPLY"; git -C /repo worktree remove --force "$wt"; exit 2; fi
 (cd $wt && cargo test $flags --offline --test $demo >> $log 2>&1); patched=$?
